@@ -5,6 +5,7 @@
 (* A request is a record [k, n, close]:                                                                      *)
 (*   k = "G" GET handler with set_content(n octets)   "H" HEAD on that route        "P" POST echo (CL body)    *)
 (*       "C" POST echo, chunked request body          "T" handler throws            "R" raw body + manual CL   *)
+(*       "L" GET handler with a LARGE body (n KiB: 64, 1024, 4096) - too large for one write step            *)
 (*       "N" no route (404)   "M" method not allowed (405)   "O" OPTIONS (204, no body, no Content-Length)    *)
 (*       "B" request line / header section that cannot be parsed (400/501/505 + close, decided by the worker) *)
 (*       "U" message length that cannot be decided (bad chunk size, bad Content-Length, CL+TE: the I/O thread *)
@@ -14,39 +15,50 @@
 (* Start (a worker takes the oldest task), Finish (the handler returns - gated handlers return when the       *)
 (* harness / the environment lets them, in ANY order), Send (one send command = one whole response, atomic    *)
 (* with respect to other responses), Close (the close command of a closing request, a separate step).         *)
+(* A response is a sequence of >= 1 write steps inside ONE critical section (the send lock): small responses  *)
+(* are one step, large ones two (SendHead, SendBody); a handler may return while a large response is between *)
+(* its steps (exported as a negative entry of the return order: the harness then lets that handler return as *)
+(* soon as the first octets of the large response are on the wire).  Dev_SplitSendUnlocked = TRUE: head and  *)
+(* body are two separate critical sections - another response can land between them (NoInterleave).          *)
+(* Dev_ExtractOnlyFirst = TRUE: of several complete requests that arrive in one segment only the first is    *)
+(* extracted, the others wait in the session buffer for bytes that never come (AllAnswered).                 *)
 (* Dev_CompletionOrder = TRUE is the code as it was when this check was written (F-16a): a worker sends as    *)
 (* soon as its handler returns.  FALSE is the design the property describes: the responses of one connection  *)
 (* are sequenced.  Dev_BadFramingWaits = TRUE: an undecidable length is "need more data" for ever (F-15e).    *)
 (* The terminal states of this specification are the CASES checks/C16.py runs on the real server:            *)
 (* (pipeline, order in which the gated handlers return).                                                     *)
-EXTENDS Naturals, Sequences, FiniteSets, TLC, Json
+EXTENDS Integers, Sequences, FiniteSets, TLC, Json
 
 CONSTANTS Variants,      \* set of request records
           MaxLen,        \* requests per pipeline
           Workers,       \* worker threads available to this connection
-          Dev_CompletionOrder, Dev_BadFramingWaits
+          Dev_CompletionOrder, Dev_BadFramingWaits, Dev_SplitSendUnlocked, Dev_ExtractOnlyFirst
 
-VARIABLES pipe, nextIn, ioStop, ioClosed, queue, running, finished, sent, closedBy, wire, closed, relOrder
-vars == <<pipe, nextIn, ioStop, ioClosed, queue, running, finished, sent, closedBy, wire, closed, relOrder>>
+VARIABLES pipe, nextIn, ioStop, ioClosed, queue, running, finished, sent, closedBy, wire, closed, relOrder,
+          lock,        \* holder of the send lock (0: free)
+          headed       \* large responses whose head has been written and whose body has not
+vars == <<pipe, nextIn, ioStop, ioClosed, queue, running, finished, sent, closedBy, wire, closed, relOrder, lock, headed>>
 
-Gated(r) == r.k \in {"G", "H", "P", "C", "T", "R"}
+Gated(r) == r.k \in {"G", "H", "P", "C", "T", "R", "L"}
 Closing(r) == r.close \/ r.k \in {"B", "U"}
 RespOptional(r) == r.k \in {"B", "U"}          \* "an error status or a closed connection"
+Big(r) == r.k = "L"
 N == Len(pipe)
 RECURSIVE SeqsUpTo(_)
 SeqsUpTo(n) == IF n = 0 THEN {<<>>} ELSE LET S == SeqsUpTo(n - 1) IN S \cup {Append(q, v) : q \in {x \in S : Len(x) = n - 1}, v \in Variants}
 
 Init == /\ pipe \in (SeqsUpTo(MaxLen) \ {<<>>})
         /\ nextIn = 1 /\ ioStop = FALSE /\ ioClosed = FALSE /\ queue = <<>> /\ running = {} /\ finished = {} /\ sent = {} /\ closedBy = {}
-        /\ wire = <<>> /\ closed = FALSE /\ relOrder = <<>>
+        /\ wire = <<>> /\ closed = FALSE /\ relOrder = <<>> /\ lock = 0 /\ headed = {}
 
-\* handleIncomingData: the next complete request in the buffer
+\* handleIncomingData: the next complete request in the buffer (the whole pipeline arrived in one segment)
 IoExtract ==
     /\ ~ioStop /\ nextIn <= N
+    /\ Dev_ExtractOnlyFirst => nextIn = 1
     /\ IF pipe[nextIn].k = "U"
        THEN ioStop' = TRUE /\ UNCHANGED <<queue, nextIn>>
        ELSE queue' = Append(queue, nextIn) /\ nextIn' = nextIn + 1 /\ UNCHANGED ioStop
-    /\ UNCHANGED <<pipe, ioClosed, running, finished, sent, closedBy, wire, closed, relOrder>>
+    /\ UNCHANGED <<pipe, ioClosed, running, finished, sent, closedBy, wire, closed, relOrder, lock, headed>>
 
 \* closeSession from the I/O thread for a message whose length cannot be decided.  The code closes at once; the
 \* design the property describes lets the responses of the earlier requests out first
@@ -54,55 +66,77 @@ IoGiveUp ==
     /\ ioStop /\ ~ioClosed /\ ~Dev_BadFramingWaits
     /\ Dev_CompletionOrder \/ \A j \in 1..(nextIn - 1) : j \in sent /\ (Closing(pipe[j]) => j \in closedBy)
     /\ ioClosed' = TRUE /\ closed' = TRUE
-    /\ UNCHANGED <<pipe, nextIn, ioStop, queue, running, finished, sent, closedBy, wire, relOrder>>
+    /\ UNCHANGED <<pipe, nextIn, ioStop, queue, running, finished, sent, closedBy, wire, relOrder, lock, headed>>
 
 Start == /\ queue # <<>> /\ Cardinality(running) < Workers
          /\ running' = running \cup {Head(queue)} /\ queue' = Tail(queue)
-         /\ UNCHANGED <<pipe, nextIn, ioStop, ioClosed, finished, sent, closedBy, wire, closed, relOrder>>
+         /\ UNCHANGED <<pipe, nextIn, ioStop, ioClosed, finished, sent, closedBy, wire, closed, relOrder, lock, headed>>
 
-\* the handler (or the built-in 404/405/204/parse-error path) has produced its response object
+\* the handler (or the built-in 404/405/204/parse-error path) has produced its response object; a return while a
+\* large response is between its write steps is recorded as a negative entry
 Finish(i) == /\ i \in running /\ i \notin finished
              /\ finished' = finished \cup {i}
-             /\ relOrder' = IF Gated(pipe[i]) THEN Append(relOrder, i) ELSE relOrder
-             /\ UNCHANGED <<pipe, nextIn, ioStop, ioClosed, queue, running, sent, closedBy, wire, closed>>
+             /\ relOrder' = IF Gated(pipe[i]) THEN Append(relOrder, IF headed # {} THEN 0 - i ELSE i) ELSE relOrder
+             /\ UNCHANGED <<pipe, nextIn, ioStop, ioClosed, queue, running, sent, closedBy, wire, closed, lock, headed>>
 
 \* sequenced design: response i may be written once every earlier request of the connection is completely done
 EarlierDone(i) == \A j \in 1..(i - 1) : j \in sent /\ (Closing(pipe[j]) => j \in closedBy)
-Send(i) == /\ i \in finished /\ i \notin sent
+Put(x) == wire' = IF closed THEN wire ELSE Append(wire, x)          \* a send on a closed session is dropped
+\* a response that fits one write step: one critical section
+Send(i) == /\ i \in finished /\ i \notin sent /\ ~Big(pipe[i]) /\ lock = 0
            /\ Dev_CompletionOrder \/ EarlierDone(i)
-           /\ sent' = sent \cup {i}
-           /\ wire' = IF closed THEN wire ELSE Append(wire, i)          \* a send on a closed session is dropped
+           /\ sent' = sent \cup {i} /\ Put(<<i, "w">>)
            /\ running' = IF Closing(pipe[i]) THEN running ELSE running \ {i}
-           /\ UNCHANGED <<pipe, nextIn, ioStop, ioClosed, queue, finished, closedBy, closed, relOrder>>
+           /\ UNCHANGED <<pipe, nextIn, ioStop, ioClosed, queue, finished, closedBy, closed, relOrder, lock, headed>>
+\* a large response: two write steps.  The lock is kept between them - unless Dev_SplitSendUnlocked
+SendHead(i) == /\ i \in finished /\ i \notin sent /\ i \notin headed /\ Big(pipe[i]) /\ lock = 0
+               /\ Dev_CompletionOrder \/ EarlierDone(i)
+               /\ headed' = headed \cup {i} /\ Put(<<i, "h">>)
+               /\ lock' = IF Dev_SplitSendUnlocked THEN 0 ELSE i
+               /\ UNCHANGED <<pipe, nextIn, ioStop, ioClosed, queue, running, finished, sent, closedBy, closed, relOrder>>
+SendBody(i) == /\ i \in headed /\ (lock = i \/ (Dev_SplitSendUnlocked /\ lock = 0))
+               /\ headed' = headed \ {i} /\ sent' = sent \cup {i} /\ Put(<<i, "b">>) /\ lock' = 0
+               /\ running' = IF Closing(pipe[i]) THEN running ELSE running \ {i}
+               /\ UNCHANGED <<pipe, nextIn, ioStop, ioClosed, queue, finished, closedBy, closed, relOrder>>
 
 \* the close command that follows the response of a closing request (not atomic with the send)
 Close(i) == /\ i \in sent /\ Closing(pipe[i]) /\ i \notin closedBy
             /\ closedBy' = closedBy \cup {i} /\ closed' = TRUE /\ running' = running \ {i}
-            /\ UNCHANGED <<pipe, nextIn, ioStop, ioClosed, queue, finished, sent, wire, relOrder>>
+            /\ UNCHANGED <<pipe, nextIn, ioStop, ioClosed, queue, finished, sent, wire, relOrder, lock, headed>>
 
 FinishStep == \E i \in 1..N : Finish(i)
 SendStep == \E i \in 1..N : Send(i)
+SendHeadStep == \E i \in 1..N : SendHead(i)
+SendBodyStep == \E i \in 1..N : SendBody(i)
 CloseStep == \E i \in 1..N : Close(i)
-Next == IoExtract \/ IoGiveUp \/ Start \/ FinishStep \/ SendStep \/ CloseStep
+Next == IoExtract \/ IoGiveUp \/ Start \/ FinishStep \/ SendStep \/ SendHeadStep \/ SendBodyStep \/ CloseStep
 Spec == Init /\ [][Next]_vars
 
 \* ============================================================================================ the property
 Dispatched == 1..(nextIn - 1)
-Quiescent == /\ (ioStop \/ nextIn > N) /\ queue = <<>> /\ (ioStop => ioClosed \/ Dev_BadFramingWaits)
+Quiescent == /\ (ioStop \/ nextIn > N \/ Dev_ExtractOnlyFirst) /\ queue = <<>> /\ (ioStop => ioClosed \/ Dev_BadFramingWaits)
              /\ \A i \in Dispatched : i \in sent /\ (Closing(pipe[i]) => i \in closedBy)
 FirstClosing == IF \E i \in 1..N : Closing(pipe[i]) THEN CHOOSE i \in 1..N : Closing(pipe[i]) /\ \A j \in 1..(i - 1) : ~Closing(pipe[j])
                 ELSE N + 1
 Upto(n) == [i \in 1..n |-> i]
 IsPrefix(a, b) == Len(a) <= Len(b) /\ \A i \in 1..Len(a) : a[i] = b[i]
+\* the requests whose response STARTS at each response start on the wire / whose response is complete
+Starts == LET H == SelectSeq(wire, LAMBDA e : e[2] # "b") IN [k \in 1..Len(H) |-> H[k][1]]
+Completed == LET H == SelectSeq(wire, LAMBDA e : e[2] # "h") IN [k \in 1..Len(H) |-> H[k][1]]
+\* octets of different responses never interleave: a head is followed by its own body and by nothing else
+NoInterleave == \A p \in 1..Len(wire) :
+                   /\ (wire[p][2] = "h" /\ p < Len(wire)) => wire[p + 1] = <<wire[p][1], "b">>
+                   /\ wire[p][2] = "b" => (p > 1 /\ wire[p - 1] = <<wire[p][1], "h">>)
 \* responses are written in request order, each at most once, none after the response of the closing request
-InOrder == IsPrefix(wire, Upto(IF FirstClosing > N THEN N ELSE FirstClosing))
+InOrder == IsPrefix(Starts, Upto(IF FirstClosing > N THEN N ELSE FirstClosing))
 \* at the end every request up to the closing one has its response (the closing one may be answered by the close
-\* alone if it could not be parsed), and a closing request has closed the connection: never silence
+\* alone if it could not be parsed), and a closing request has closed the connection: never silence, never a
+\* complete request left waiting
 AllAnswered == Quiescent =>
     LET c == FirstClosing IN
-    IF c > N THEN wire = Upto(N)
+    IF c > N THEN Completed = Upto(N)
     ELSE /\ closed
-         /\ wire = Upto(c) \/ (RespOptional(pipe[c]) /\ wire = Upto(c - 1))
+         /\ Completed = Upto(c) \/ (RespOptional(pipe[c]) /\ Completed = Upto(c - 1))
 
 \* export of the cases: printed once per terminal state (the check removes duplicates)
 ReqJson(r) == [k |-> r.k, n |-> r.n, close |-> r.close]
